@@ -20,6 +20,8 @@ RULE = (
     "(accept-all if any providing ancestor has no precondition): body entered or not, error belongs to a falsy contract of the "
     "effective set, class-creation exceptions. Non-trivial = call whose effective contracts span >=2 classes; distinct = "
     "(shape, kind, per-class choices, class called, truth vector)."
+    ' Fixed scenario: the error of a violated base group cannot be built (raising factory, argument without repr) w'
+    'hile the weaker group of the override holds - the call is accepted (sync and async).'
 )
 ASSUMPTIONS = ["model.eff_pre/eff_post/eff_invs encode the statement; snapshots reached along two diamond paths are a silent zone"]
 
